@@ -387,3 +387,32 @@ Example astring_spelling_example :
   parse_astring default_sparams [] ([SP; SP] ++ spell_buf SpLitPlus v rest)
     = POk (v, print_literal false v) rest [].
 Proof. vm_compute. split; reflexivity. Qed.
+
+(* pymap's astring class is the RFC's ASTRING-CHAR minus the closing brace *)
+Lemma astring_char_rfc c : c <> RBRACE -> astring_char c = rfc_astring_char c.
+Proof.
+  intro H. destruct (N.ltb_spec c 128) as [Hlt|Hge].
+  - assert (Hi : In c (map N.of_nat (seq 0 128))).
+    { apply in_map_iff. exists (N.to_nat c). split; [lia|]. apply in_seq. lia. }
+    assert (F : forallb (fun x => (x =? RBRACE) || Bool.eqb (astring_char x) (rfc_astring_char x))
+                        (map N.of_nat (seq 0 128)) = true) by (vm_compute; reflexivity).
+    rewrite forallb_forall in F. specialize (F c Hi). apply orb_true_iff in F as [F|F].
+    + apply N.eqb_eq in F. contradiction.
+    + apply Bool.eqb_prop in F. exact F.
+  - unfold astring_char, atom_char, rfc_astring_char, in_range.
+    repeat match goal with
+    | |- context [c =? ?k] => destruct (N.eqb_spec c k) as [E|_]; [exfalso; unfold RBRACE in *; lia|]
+    end.
+    repeat match goal with
+    | |- context [c <=? ?k] => destruct (N.leb_spec c k) as [E|_]; [exfalso; lia|]
+    end.
+    rewrite !andb_false_r. reflexivity.
+Qed.
+
+(* ... and that one byte makes a spelling difference: the atom form of "}" is
+   refused while its quoted form is accepted (known finding C18-F3) *)
+Theorem atom_rbrace_refuted :
+  exists v, v <> [] /\ forallb rfc_astring_char v = true /\
+    parse_astring default_sparams [] (v ++ [SP]) = PFail /\
+    parse_astring default_sparams [] (print_quoted v ++ [SP]) = POk (v, print_quoted v) [SP] [].
+Proof. exists [RBRACE]. split; [discriminate|]. vm_compute. repeat split. Qed.
